@@ -51,6 +51,12 @@ def _elseify(body):
             s.orelse = _elseify(body[i + 1:])
             out.append(s)
             return out
+        if isinstance(s, ast.Try) and not s.orelse and not s.finalbody and s.handlers and i + 1 < len(body) and \
+                all(_ends_in_exit(h.body) for h in s.handlers) and not _ends_in_exit(s.body):
+            # `try: X except E: return a` / rest  ->  `try: X except E: return a else: rest`
+            s.orelse = _elseify(body[i + 1:])
+            out.append(s)
+            return out
         out.append(s)
     return out
 
@@ -239,6 +245,20 @@ def inline_helpers(tree, known_functions):
                         rec(b)
                 for h in getattr(s, 'handlers', []) or []:
                     rec(h.body)
+                if isinstance(s, ast.If):
+                    t_ = s.test
+                    neg_ = isinstance(t_, ast.UnaryOp) and isinstance(t_.op, ast.Not)
+                    c_ = t_.operand if neg_ else t_
+                    hit_ = _resolve(c_, helpers, cls_name, class_bases)[0] if isinstance(c_, ast.Call) else None
+                    if hit_ is not None and hit_.returns_value:
+                        # `if h(a):` -> `_r = h(a)` / `if _r:` ; the assignment is then inlined by the code below
+                        rv_ = '_t_%s' % hit_.node.name.strip('_')
+                        asg = ast.Assign(targets=[ast.Name(id=rv_, ctx=ast.Store())], value=c_, lineno=s.lineno, col_offset=s.col_offset)
+                        asg.end_lineno, asg.end_col_offset = s.lineno, s.col_offset
+                        nm = ast.Name(id=rv_, ctx=ast.Load(), lineno=s.lineno, col_offset=s.col_offset)
+                        s.test = ast.UnaryOp(op=ast.Not(), operand=nm, lineno=s.lineno, col_offset=s.col_offset) if neg_ else nm
+                        block.insert(i, asg)
+                        s = asg
                 if not isinstance(s, (ast.Assign, ast.AugAssign, ast.Expr, ast.Return)):
                     i += 1
                     continue
